@@ -25,7 +25,13 @@ import (
 //	(c) at most one invocation between two resets.
 //
 // reset = an offer/answer exchange completed (the count restarts just before the completing SetLocal/SetRemote
-// (answer) call) or pion's own checkNegotiationNeeded() observed false at a stable quiescent point. Rollback is not a reset.
+// (answer) call) or the monitor's own re-implementation of W3C "check if negotiation is needed" (indepNeeded: kit-parsed
+// current local/remote descriptions + public transceiver getters + the harness' data-channel count) observed "not
+// needed" at a stable quiescent point. pion's checkNegotiationNeeded() — the function whose result decides whether the
+// event fires — is cross-checked (counted) and can never grant a reset of the at-most-once epoch: its "false" is ignored
+// there, its "true" only withholds the re-arm (the epoch then stays the statement's literal one, "until an exchange
+// completes"). For the must-fire oracle (b) pion's "false" is used against pion only: it starts a new must-fire epoch
+// (its flag is clear, the next tracked change must produce an event). Rollback is not a reset.
 
 type c04Fire struct {
 	Op         int    `json:"op"`
@@ -50,7 +56,8 @@ type c04OpRec struct {
 	Err    string `json:"err,omitempty"`
 	State  string `json:"state_after"`
 	Fires  int    `json:"fires_total"`
-	Check  string `json:"check_after"`
+	Check  string `json:"check_after"` // pion's own checkNegotiationNeeded(): cross-check only
+	Indep  string `json:"independent_check_after"`
 	Reset  string `json:"reset,omitempty"`
 	Phase  string `json:"phase_after"`
 	Needed string `json:"model_needed,omitempty"`
@@ -72,8 +79,10 @@ type c04Hist struct {
 	renegotiate bool   // A has completed at least one exchange
 	exchanges   int
 	rollbacks   []int // op indices of successful rollbacks
-	resetAt     int   // number of fires at the last reset
+	resetAt     int   // (c) at-most-once epoch: number of fires at the last reset (exchange | independent check "not needed")
 	resetWhy    string
+	resetB      int // (b) must-fire epoch: number of fires at the last exchange | pion's own check observed false
+	resetBWhy   string
 	judged      int // fires already judged by oracle (a)
 	pending     []*c04Change
 	dcCreated   int
@@ -81,9 +90,11 @@ type c04Hist struct {
 	ops         []c04OpRec
 	reported    map[string]bool
 	aborted     string
-	bentDrain   bool // the first exchange as answerer cannot be drained between its calls
-	changesNS   int  // changes made while not stable
-	script      []string // non-nil: scripted history (fixed op list) instead of generated ops
+	bentDrain   bool                    // the first exchange as answerer cannot be drained between its calls
+	changesNS   int                     // changes made while not stable
+	script      []string                // non-nil: scripted history (fixed op list) instead of generated ops
+	forceKind   RTPCodecType            // != 0: scripted token fixes the kind of the next AddTrack / AddTransceiverFromKind
+	forceDir    RTPTransceiverDirection // != 0: scripted token fixes the direction of the next AddTransceiverFromKind
 }
 
 // c04Quiesce drains the operations queue until no worker is alive, nothing is queued and the empty-chain flag is
@@ -144,7 +155,8 @@ func (h *c04Hist) detail(extra string) map[string]any {
 	fires := append([]c04Fire{}, h.fires...)
 	h.mu.Unlock()
 
-	return map[string]any{"ops": h.ops, "fires": fires, "reset_at_fire": h.resetAt, "reset_why": h.resetWhy, "note": extra,
+	return map[string]any{"ops": h.ops, "fires": fires, "reset_at_fire": h.resetAt, "reset_why": h.resetWhy,
+		"mustfire_reset_at_fire": h.resetB, "mustfire_reset_why": h.resetBWhy, "note": extra,
 		"drain_bent_for_first_answer": h.bentDrain}
 }
 
@@ -251,6 +263,143 @@ func (h *c04Hist) stillNeeded(c *c04Change, cur *kit.SDPDesc) (needed bool) {
 	return false
 }
 
+// c04ParseDesc parses a description with the kit's line-oriented parser (nil: absent, bad=true: unparsable).
+func c04ParseDesc(d *SessionDescription) (p *kit.SDPDesc, bad bool) {
+	if d == nil {
+		return nil, false
+	}
+	p, err := kit.ParseSDP(d.SDP)
+	if err != nil {
+		return nil, true
+	}
+
+	return p, false
+}
+
+// c04SecDir is the direction of an m= section ("sendrecv" when no direction attribute is present, RFC 4566 default).
+func c04SecDir(m *kit.SDPMedia) string {
+	if ds := m.Directions(); len(ds) > 0 {
+		return ds[0]
+	}
+
+	return "sendrecv"
+}
+
+func c04DirBits(d string) (send, recv bool) {
+	switch d {
+	case "sendrecv":
+		return true, true
+	case "sendonly":
+		return true, false
+	case "recvonly":
+		return false, true
+	}
+
+	return false, false
+}
+
+func c04DirOf(send, recv bool) string {
+	switch {
+	case send && recv:
+		return "sendrecv"
+	case send:
+		return "sendonly"
+	case recv:
+		return "recvonly"
+	}
+
+	return "inactive"
+}
+
+// c04DirReverse is the direction seen from the other peer.
+func c04DirReverse(d string) string {
+	s, r := c04DirBits(d)
+
+	return c04DirOf(r, s)
+}
+
+func c04DirIntersect(a, b string) string {
+	as, ar := c04DirBits(a)
+	bs, br := c04DirBits(b)
+
+	return c04DirOf(as && bs, ar && br)
+}
+
+// indepNeeded is the monitor's OWN "check if negotiation is needed" (W3C webrtc-pc, dfn-check-if-negotiation-is-needed),
+// computed from the kit-parsed CURRENT local / remote descriptions, the public transceiver getters (Mid, Direction,
+// Sender().Track()) and the harness' own count of data channels created on A. It shares no code with pion's
+// checkNegotiationNeeded / getByMid / getPeerDirection / haveDataChannel. Every clause is a sufficient condition of the
+// W3C algorithm; where pion has no notion to consult (stopping/stopped transceivers, a sender without track) or the
+// descriptions are inconsistent (no matching remote section) the clause is skipped, i.e. the answer leans to "not
+// needed", which is the lenient side for the at-most-once oracle (it re-arms the epoch).
+func (h *c04Hist) indepNeeded() (needed bool, why string) {
+	ld := h.a.CurrentLocalDescription()
+	local, bad := c04ParseDesc(ld)
+	if bad {
+		h.run.Count("model_divergence_indep_unparsable_description", 1)
+
+		return false, "unparsable-local"
+	}
+	remote, bad := c04ParseDesc(h.a.CurrentRemoteDescription())
+	if bad {
+		h.run.Count("model_divergence_indep_unparsable_description", 1)
+
+		return false, "unparsable-remote"
+	}
+	// step 4: data channels created, no m= section negotiated for data
+	if h.dcCreated > 0 {
+		hasApp := false
+		if local != nil {
+			for _, m := range local.Media {
+				if m.Kind == "application" {
+					hasApp = true
+				}
+			}
+		}
+		if !hasApp {
+			return true, "datachannel-without-application-section"
+		}
+	}
+	// step 5: every transceiver
+	for _, t := range h.a.GetTransceivers() {
+		sec := c04SectionByMid(local, t.Mid())
+		if sec == nil { // 5.2 not associated with an m= section of the current local description
+			return true, "transceiver-not-associated"
+		}
+		dir := t.Direction().String()
+		if dir == "sendrecv" || dir == "sendonly" { // 5.3.1 msid lines vs the sender's stream ids
+			if s := t.Sender(); s != nil && s.Track() != nil {
+				ids := map[string]bool{}
+				for _, v := range sec.AttrAll("msid") {
+					if f := strings.Fields(v); len(f) > 0 {
+						ids[f[0]] = true
+					}
+				}
+				if len(ids) != 1 || !ids[s.Track().StreamID()] {
+					return true, "msid-differs"
+				}
+			}
+		}
+		var rsec *kit.SDPMedia
+		if remote != nil {
+			rsec = c04SectionByMid(remote, t.Mid())
+		}
+		switch ld.Type {
+		case SDPTypeOffer: // 5.3.2 neither the local nor the (reversed) remote direction matches
+			if c04SecDir(sec) != dir && (rsec == nil || c04DirReverse(c04SecDir(rsec)) != dir) {
+				return true, "direction-differs(offer)"
+			}
+		case SDPTypeAnswer: // 5.3.3 answered direction != transceiver direction intersected with the offered direction
+			if rsec != nil && c04SecDir(sec) != c04DirIntersect(dir, c04DirReverse(c04SecDir(rsec))) {
+				return true, "direction-differs(answer)"
+			}
+		default:
+		}
+	}
+
+	return false, ""
+}
+
 // settle brings A to quiescence after op `name` and evaluates the oracles. completedBefore >= 0: the op completed
 // an offer/answer exchange and that many invocations had been recorded just before the completing call.
 func (h *c04Hist) settle(name string, err error, completedBefore int) bool { //nolint:cyclop,gocognit
@@ -295,6 +444,7 @@ func (h *c04Hist) settle(name string, err error, completedBefore int) bool { //n
 	// reset by a completed exchange (placed before the completing call)
 	if completedBefore >= 0 {
 		h.resetAt, h.resetWhy = completedBefore, "exchange-completed@op"+fmt.Sprint(len(h.ops))
+		h.resetB, h.resetBWhy = h.resetAt, h.resetWhy
 		rec.Reset = "exchange"
 		h.run.Count("resets_by_exchange", 1)
 	}
@@ -350,7 +500,7 @@ func (h *c04Hist) settle(name string, err error, completedBefore int) bool { //n
 			c.Checked = true
 			h.run.Seen("mustfire_change_kinds", c.Kind+"@"+c.MadeIn)
 		}
-		if len(fires)-h.resetAt > 0 {
+		if len(fires)-h.resetB > 0 {
 			c.Served = true
 
 			continue
@@ -366,28 +516,72 @@ func (h *c04Hist) settle(name string, err error, completedBefore int) bool { //n
 			h.ops = append(h.ops, rec)
 			h.violate("not-fired-after:"+c.Kind+"@"+c.MadeIn,
 				fmt.Sprintf("%s made at op %d in state %s is not in the current local description, A is stable and quiescent, "+
-					"but OnNegotiationNeeded was not invoked since the last reset (%s)", c.Kind, c.Op, c.MadeIn, h.resetWhy))
+					"but OnNegotiationNeeded was not invoked since the last reset (%s)", c.Kind, c.Op, c.MadeIn, h.resetBWhy))
 			h.ops = h.ops[:len(h.ops)-1]
 		}
 	}
 	h.pending = keep
 	rec.Needed = strings.Join(neededKinds, ",")
 
-	// reset by pion's own "negotiation is not needed"
+	// reset by "negotiation is not needed", decided by the monitor's OWN W3C check (indepNeeded) — not by pion's
+	// checkNegotiationNeeded(), which is the very function that decides whether the event fires: a defect there
+	// (false, then true again, with no exchange and the need unchanged) would otherwise re-arm the epoch and let the
+	// second event of the same real epoch pass as a first one.
 	// (only at stable quiescent points: W3C 4.7.3.2.4 clears the flag only after the stable test of 4.7.3.2.3 — a
 	// transient "not needed" while an offer is pending re-arms nothing)
+	indep, why := h.indepNeeded()
+	rec.Indep = fmt.Sprint(indep)
+	if why != "" {
+		rec.Indep += ":" + why
+	}
+	// pion's own answer: counted cross-check only, never deciding
 	chk := h.a.checkNegotiationNeeded()
 	rec.Check = fmt.Sprint(chk)
-	if !chk && state == SignalingStateStable {
-		if anyNeeded {
-			h.run.Count("model_divergence_check_false_but_model_needed", 1)
-		} else {
-			if len(fires) > h.resetAt {
-				h.run.Count("resets_by_check_false_after_fire", 1)
-			}
-			h.resetAt, h.resetWhy = len(fires), "check-false@op"+fmt.Sprint(len(h.ops))
-			rec.Reset += "check-false"
+	if state == SignalingStateStable {
+		h.run.Count("crosscheck_evaluations", 1)
+		switch {
+		case chk == indep:
+			h.run.Count("crosscheck_agree", 1)
+		case chk:
+			h.run.Count("model_divergence_pion_check_true_but_independent_not_needed", 1)
+		default:
+			h.run.Count("model_divergence_pion_check_false_but_independent_needed", 1)
+			h.run.Seen("pion_check_false_but_independent_needed_because", why)
 		}
+		if indep {
+			h.run.Seen("independent_needed_because", why)
+		}
+	}
+	// must-fire epoch (b): an exchange, or pion itself saying "not needed" at a stable quiescent point (then its
+	// [[NegotiationNeeded]] flag is clear and the next tracked change must produce an event). pion's answer is used
+	// here only AGAINST pion: a "false" adds a must-fire obligation, it never removes one and never touches the
+	// at-most-once epoch. (The independent check cannot be used for (b): where pion fires an event that W3C does not ask
+	// for, e.g. after answering with a direction narrowed by the offer, the statement forbids a second event before the
+	// next exchange, so demanding one after an independent "not needed" would be stricter than the statement.)
+	if !chk && state == SignalingStateStable && !anyNeeded {
+		h.resetB, h.resetBWhy = len(fires), "pion-check-false@op"+fmt.Sprint(len(h.ops))
+		rec.Reset += "mustfire-rearmed"
+	}
+	// at-most-once epoch (c): re-armed only when the INDEPENDENT check says "not needed". pion's own "true" may
+	// withhold a re-arm (then the epoch stays the statement's literal one: until an exchange completes — this keeps
+	// the double-fire sensitivity in epochs where pion considers negotiation needed for reasons W3C does not share),
+	// but pion's "false" alone never grants one.
+	if !indep && state == SignalingStateStable {
+		switch {
+		case anyNeeded:
+			h.run.Count("model_divergence_independent_not_needed_but_model_needed", 1)
+		case chk:
+			h.run.Count("rearm_withheld_pion_check_true", 1)
+		default:
+			if len(fires) > h.resetAt {
+				h.run.Count("resets_by_not_needed_after_fire", 1)
+			}
+			h.resetAt, h.resetWhy = len(fires), "independent-check-not-needed@op"+fmt.Sprint(len(h.ops))
+			rec.Reset += "not-needed"
+		}
+	} else if !chk && state == SignalingStateStable && !anyNeeded {
+		// the case the old oracle masked: pion says "not needed" while the independent check still sees the need
+		h.run.Count("rearm_refused_pion_check_false_but_independent_needed", 1)
 	}
 	h.ops = append(h.ops, rec)
 
@@ -422,7 +616,9 @@ func (h *c04Hist) noteChange(c *c04Change) {
 
 func (h *c04Hist) opAddTrack() (string, error) {
 	kind := RTPCodecTypeVideo
-	if h.r.Bool() {
+	if h.forceKind != 0 {
+		kind = h.forceKind
+	} else if h.r.Bool() {
 		kind = RTPCodecTypeAudio
 	}
 	before := len(h.a.GetTransceivers())
@@ -466,10 +662,17 @@ func (h *c04Hist) opRemoveTrack() (string, error) {
 
 func (h *c04Hist) opAddTransceiver() (string, error) {
 	kind := RTPCodecTypeVideo
-	if h.r.Bool() {
+	if h.forceKind != 0 {
+		kind = h.forceKind
+	} else if h.r.Bool() {
 		kind = RTPCodecTypeAudio
 	}
-	dir := kit.Pick(h.r, []RTPTransceiverDirection{RTPTransceiverDirectionSendrecv, RTPTransceiverDirectionSendonly, RTPTransceiverDirectionRecvonly})
+	var dir RTPTransceiverDirection
+	if h.forceDir != 0 {
+		dir = h.forceDir
+	} else {
+		dir = kit.Pick(h.r, []RTPTransceiverDirection{RTPTransceiverDirectionSendrecv, RTPTransceiverDirectionSendonly, RTPTransceiverDirectionRecvonly})
+	}
 	name := fmt.Sprintf("AddTransceiverFromKind(%s,%s)", kind, dir)
 	t, err := h.a.AddTransceiverFromKind(kind, RTPTransceiverInit{Direction: dir})
 	if err != nil {
@@ -804,6 +1007,19 @@ func (h *c04Hist) doClose() bool {
 
 // scriptStep performs the next scripted op.
 func (h *c04Hist) scriptStep(tok string) bool {
+	// "addtrack:audio", "addtr:video:recvonly": kind / direction fixed by the script
+	h.forceKind, h.forceDir = 0, 0
+	if parts := strings.Split(tok, ":"); len(parts) > 1 {
+		tok = parts[0]
+		h.forceKind = NewRTPCodecType(parts[1])
+		if len(parts) > 2 {
+			h.forceDir = NewRTPTransceiverDirection(parts[2])
+		}
+		if h.forceKind == 0 || (len(parts) > 2 && h.forceDir == 0) {
+			panic("c04: bad script token")
+		}
+	}
+	defer func() { h.forceKind, h.forceDir = 0, 0 }()
 	switch tok {
 	case "addtr", "addtrack", "removetrack", "dc":
 		return h.doChange(tok)
@@ -885,11 +1101,19 @@ var c04Scripts = [][]string{ //nolint:gochecknoglobals
 	{"xa", "dc", "addtrack", "xa"},
 	{"addtr", "xo", "close"},
 	{"half-offer-empty", "rollback"},
+	// the legitimate W3C re-arm (AddTrack on a negotiated recvonly transceiver, undone by RemoveTrack: "not needed" again,
+	// the next AddTrack may fire a second time without an exchange) ...
+	{"addtr:audio:recvonly", "xo", "addtrack:audio", "removetrack", "addtrack:audio", "xo"},
+	// ... and the same undo while ANOTHER, older transceiver still needs negotiation (its track was removed after the
+	// exchange): negotiation stays needed throughout, so nothing re-arms and exactly one event is due before the next
+	// exchange (the only sender with a track is the one RemoveTrack can pick at each step)
+	{"addtrack:video", "addtr:audio:recvonly", "xo", "removetrack", "addtrack:audio", "removetrack", "addtrack:audio", "xo"},
+	{"addtrack:audio", "addtr:video:recvonly", "xa", "xo", "removetrack", "addtrack:video", "removetrack", "addtrack:video", "removetrack", "xo"},
 }
 
 func c04RunHistory(run *kit.Run, i int) {
 	r := run.CaseRand(i)
-	h := &c04Hist{run: run, idx: i, r: r, phase: "stable", reported: map[string]bool{}, resetWhy: "start"}
+	h := &c04Hist{run: run, idx: i, r: r, phase: "stable", reported: map[string]bool{}, resetWhy: "start", resetBWhy: "start"}
 	h.a = rigMustPC(rigOpts{})
 	h.b = rigMustPC(rigOpts{})
 	defer func() {
@@ -993,7 +1217,10 @@ func TestVerifC04(t *testing.T) {
 		"completion or rollback, Close/GracefulClose, calls after close}. Non-trivial = >= 1 handler invocation and >= 1 completed exchange; "+
 		"distinct by the executed op list")
 	defer run.Finish()
-	run.Assume("reset = exchange completed, or pion's own checkNegotiationNeeded() observed false at a stable quiescent point (W3C 4.7.3.2.4 re-arm); rollback is not a reset")
+	run.Assume("reset = exchange completed, or the monitor's own W3C check-if-negotiation-is-needed (kit.ParseSDP view of the current local/remote " +
+		"descriptions vs. transceiver Mid/Direction/sender track and data channels created) observed 'not needed' at a stable quiescent point " +
+		"(W3C 4.7.3.2.4 re-arm); pion's checkNegotiationNeeded() is cross-checked and cannot grant that reset (its 'false' is ignored for at-most-once, " +
+		"its 'true' withholds the re-arm; for must-fire its 'false' only adds an obligation); rollback is not a reset")
 	run.Assume("the first negotiation as answerer cannot be drained in have-remote-offer (startTransports blocks the queue until the peer has the answer): " +
 		"SetRemote(offer)+CreateAnswer+SetLocal(answer) is one compound op there, half exchanges in have-remote-offer only when renegotiating")
 	n := kit.N(400, 8000)
